@@ -95,6 +95,7 @@ struct Context {
     ls_len: usize,
     ss_ptr: usize,
     di_len: usize,
+    rl_len: usize,
     ip: usize,
     mode: ContextMode,
 }
@@ -507,6 +508,7 @@ impl State {
             ls_len: self.loops.len(),
             ss_ptr: self.special.len(),
             di_len: self.dict.len(),
+            rl_len: self.reverse_log.as_ref().map(|log| log.len()).unwrap_or(0),
             ip: self.code_origin(),
             mode,
         };
@@ -556,6 +558,11 @@ impl State {
                     let val = self.pop_data()?;
                     self.code_emit_value(val)?;
                 }
+            }
+            // the meta code is gone, nothing of it can be stepped back into
+            let rl_len = self.ctx.rl_len;
+            if let Some(log) = self.reverse_log.as_mut() {
+                log.truncate(rl_len);
             }
         }
         self.ctx = prev;
